@@ -200,8 +200,8 @@ pub struct App {
     pub hold_stop: Cell<bool>,
     /// fail the control service on the first back-pressure notification
     pub fail_on_backpressure: Cell<bool>,
-    pub_seq: Cell<u32>,
-    ctl_seq: Cell<u32>,
+    pub pub_seq: Cell<u32>,
+    pub ctl_seq: Cell<u32>,
     pub active_pub: Cell<u32>,
     pub max_active_pub: Cell<u32>,
     /// bytes (Remaining Length) of the publishes currently inside handlers
